@@ -347,12 +347,19 @@ impl<'a> Run<'a> {
         });
         self.rank_done(which, api, all, pos, r)
     }
-    /// rank-like operation answered by ONE bulk call
+    /// rank-like operation answered by ONE bulk call: all positions ascending, then the same entry point
+    /// with descending / shuffled / duplicated / far-apart / same-block / empty position lists
     fn rank_bulk(&mut self, which: &str, api: &str, f: impl Fn(&[usize]) -> Vec<usize>) -> R {
         let (all, pos) = self.positions();
         self.at.set(usize::MAX >> 40);
         let r = guard(|| f(&pos));
-        self.rank_done(which, api, all, pos, r)
+        let base = pos.clone();
+        self.rank_done(which, api, all, pos, r)?;
+        for (order, list) in order_lists(&base, self.n as u64) {
+            let r = guard(|| f(&list));
+            self.rank_done(which, &format!("{api}<{order}>"), false, list, r)?;
+        }
+        Ok(())
     }
     fn rank_done(&mut self, which: &str, api: &str, all: bool, pos: Vec<usize>, r: Result<Vec<usize>, String>) -> R {
         match r {
@@ -428,14 +435,56 @@ impl<'a> Run<'a> {
             Err(m) => Err(self.panic(api, m)),
         }
     }
-    /// the two bulk calls: all k below `count` (the subject's own count_ones) and 0..=count
+    /// the bulk calls: all k below `count` (the subject's own count_ones) ascending, 0..=count, then the valid k
+    /// in descending / shuffled / duplicated / far-apart / empty order, and a list with one invalid k inside
     fn select_bulk_pair(&mut self, api: &str, count: usize, f: impl Fn(&[usize]) -> Option<Vec<usize>>) -> R {
         let ks: Vec<usize> = if self.inp.big { sample(count.saturating_sub(1), self.n, 2000) } else { (0..count).collect() };
         let ks: Vec<usize> = ks.into_iter().filter(|&k| k < count).collect();
         self.select_batch("select1", api, ks.clone(), &f)?;
-        let mut ks2 = ks;
+        let mut ks2 = ks.clone();
         ks2.push(count);
-        self.select_batch("select1", api, ks2, &f)
+        self.select_batch("select1", api, ks2, &f)?;
+        for (order, list) in order_lists(&ks, self.n as u64 + 1) {
+            if order == "shuffled" && list.len() >= 2 {
+                let mut bad = list.clone();
+                bad.insert(list.len() / 2, count);
+                self.select_batch("select1", &format!("{api}<shuffled+invalid>"), bad, &f)?;
+                let mut bad = list.clone();
+                bad.insert(0, count + 7);
+                self.select_batch("select1", &format!("{api}<invalid-first>"), bad, &f)?;
+            }
+            self.select_batch("select1", &format!("{api}<{order}>"), list, &f)?;
+        }
+        Ok(())
+    }
+    /// ONE call selecting several ones of ONE word
+    fn wselect_batch(&mut self, api: &str, f: impl Fn(u64, &[usize]) -> Option<Vec<usize>>) -> R {
+        for w in self.word_sample() {
+            let word = self.inp.words[w];
+            // how many questions are worth asking: where the entry point itself starts to refuse single questions
+            let ones = match guard(|| (0..=64usize).find(|&k| f(word, &[k]).is_none()).unwrap_or(65)) {
+                Ok(c) => c,
+                Err(m) => return Err(self.panic(api, m)),
+            };
+            let valid: Vec<usize> = (0..ones).collect();
+            let mut lists = order_lists(&valid, w as u64);
+            lists.push(("asc", valid.clone()));
+            let mut bad = valid.clone();
+            bad.insert(valid.len() / 2, 64);
+            lists.push(("invalid", bad));
+            for (order, list) in lists {
+                match guard(|| f(word, &list)) {
+                    Ok(r) => {
+                        let ok = r.is_some();
+                        let r: Vec<i64> = r.unwrap_or_default().into_iter().map(clip_m).collect();
+                        let n = list.len();
+                        self.ev(json!({"op":"wselect_batch","which":"select1","api":format!("{api}<{order}>"),"w":w,"at":list,"ok":ok,"r":r}), n)
+                    }
+                    Err(m) => return Err(self.panic(api, m)),
+                }
+            }
+        }
+        Ok(())
     }
     fn get(&mut self, api: &str, f: impl Fn(usize) -> Option<bool>) -> R {
         let n = self.n;
@@ -494,16 +543,26 @@ impl<'a> Run<'a> {
                 ranges.push((s, l));
             }
         }
+        // the same ranges ascending, descending, shuffled with duplicates, and no range at all
+        let mut rng = Rng::new(ranges.len() as u64);
+        let mut desc = ranges.clone();
+        desc.reverse();
+        let mut sh = ranges.clone();
+        sh.extend(ranges.iter().step_by(3).copied());
+        rng.shuffle(&mut sh);
+        let lists = vec![("asc", ranges), ("desc", desc), ("shuffled+dups", sh), ("empty", vec![])];
         for w in self.word_sample() {
             let word = self.inp.words[w];
-            match guard(|| f(word, &ranges)) {
-                Ok(r) => {
-                    let ss: Vec<u32> = ranges.iter().map(|x| x.0).collect();
-                    let ls: Vec<u32> = ranges.iter().map(|x| x.1).collect();
-                    let n = r.len();
-                    self.ev(json!({"op":"wrange","api":api,"w":w,"s":ss,"l":ls,"r":r}), n)
+            for (order, ranges) in &lists {
+                match guard(|| f(word, ranges)) {
+                    Ok(r) => {
+                        let ss: Vec<u32> = ranges.iter().map(|x| x.0).collect();
+                        let ls: Vec<u32> = ranges.iter().map(|x| x.1).collect();
+                        let n = r.len();
+                        self.ev(json!({"op":"wrange","api":format!("{api}<{order}>"),"w":w,"s":ss,"l":ls,"r":r}), n)
+                    }
+                    Err(m) => return Err(self.panic(api, m)),
                 }
-                Err(m) => return Err(self.panic(api, m)),
             }
         }
         Ok(())
@@ -591,6 +650,73 @@ impl<'a> Run<'a> {
             Err(m) => Err(self.panic(api, m)),
         }
     }
+}
+
+/// The orders in which ONE bulk call is asked its questions.  `base` = the ascending list of all
+/// admissible arguments (thinned to at most ~256 for long vectors, keeping the ends and block edges).
+/// The contract is the single-position answer for each element, in the order asked.
+fn order_lists(base: &[usize], salt: u64) -> Vec<(&'static str, Vec<usize>)> {
+    let mut rng = Rng::new(salt ^ 0x0bde5);
+    let thin: Vec<usize> = if base.len() <= 256 {
+        base.to_vec()
+    } else {
+        let mut v: Vec<usize> = base.iter().copied().filter(|&p| p < 3 || p % 64 < 2 || p % 64 == 63).collect();
+        v.extend(base[base.len() - 3..].iter().copied());
+        while v.len() > 200 {
+            let i = 1 + rng.below(v.len() as u64 - 2) as usize;
+            v.remove(i);
+        }
+        for _ in 0..56 {
+            v.push(*rng.pick(base));
+        }
+        v.sort();
+        v.dedup();
+        v
+    };
+    let mut out: Vec<(&'static str, Vec<usize>)> = vec![("empty", vec![])];
+    if thin.is_empty() {
+        return out;
+    }
+    let (lo, hi) = (thin[0], thin[thin.len() - 1]);
+    let mut desc = thin.clone();
+    desc.reverse();
+    out.push(("desc", desc));
+    let mut sh = thin.clone();
+    rng.shuffle(&mut sh);
+    out.push(("shuffled", sh.clone()));
+    // duplicates: a few elements asked two or three times, not adjacent
+    let mut dups: Vec<usize> = sh.iter().take(48).copied().collect();
+    let again: Vec<usize> = dups.iter().step_by(2).copied().collect();
+    dups.extend(again.iter().copied());
+    dups.extend(again.iter().step_by(3).copied());
+    rng.shuffle(&mut dups);
+    dups.push(hi);
+    dups.push(hi);
+    dups.insert(0, lo);
+    dups.insert(0, lo);
+    out.push(("dups", dups));
+    // far apart: last, first, last-1, second, ...
+    let mut zig = vec![];
+    for i in 0..thin.len().min(40) {
+        zig.push(thin[thin.len() - 1 - i]);
+        zig.push(thin[i]);
+    }
+    out.push(("zigzag", zig));
+    // the same 64-bit block many times, then far away and back
+    let mid = thin[thin.len() / 2];
+    let mut blk: Vec<usize> = thin.iter().copied().filter(|&p| p / 64 == mid / 64).collect();
+    rng.shuffle(&mut blk);
+    let mut sb = blk.clone();
+    sb.push(hi);
+    sb.push(lo);
+    sb.extend(blk.iter().rev().copied());
+    sb.push(lo);
+    sb.push(hi);
+    out.push(("sameblock", sb));
+    out.push(("ends", vec![hi, lo, hi, lo]));
+    out.push(("first", vec![lo]));
+    out.push(("last", vec![hi]));
+    out
 }
 
 /// positions up to `max`: every multiple of 64 +-1, the ends, and `nrand` pseudo-random ones
@@ -1328,6 +1454,14 @@ fn run_subject(r: &mut Run, fam: &str, variant: &str, route: &str, seed: u64) ->
             };
             r.select_bulk_pair("Bmi2BlockOps::select_bulk", c, |ks| b2a::Bmi2BlockOps::select_bulk(w, ks).ok())?;
             r.select_bulk_pair("Bmi2Accelerator::select_bulk", c, |ks| acc.select_bulk(w, ks).ok())?;
+            r.select_bulk_pair("Bmi2SelectOps::select1_bulk", c, |ks| {
+                let ks32: Vec<u32> = ks.iter().map(|&k| k as u32).collect();
+                b2a::Bmi2SelectOps::select1_bulk(w, &ks32).ok().map(|v| v.into_iter().map(|x| x as usize).collect())
+            })?;
+            r.wselect_batch("Bmi2AdvancedPatterns::pdep_ctz_select_bulk", |x, ks| {
+                let ks32: Vec<u32> = ks.iter().map(|&k| k as u32).collect();
+                b2a::Bmi2AdvancedPatterns::pdep_ctz_select_bulk(x, &ks32).ok().map(|v| v.into_iter().map(|p| p as usize).collect())
+            })?;
             r.popcounts("Bmi2RankOps::popcount_bulk", |ws| b2a::Bmi2RankOps::popcount_bulk(ws).into_iter().map(|x| x as usize).collect())?;
             r.popcounts("Bmi2RankOps::popcount_u64", |ws| ws.iter().map(|&x| b2a::Bmi2RankOps::popcount_u64(x) as usize).collect())?;
             r.popcounts("Bmi2Dispatcher::dispatch_popcount", |ws| ws.iter().map(|&x| disp.dispatch_popcount(x) as usize).collect())?;
@@ -1368,6 +1502,15 @@ fn run_subject(r: &mut Run, fam: &str, variant: &str, route: &str, seed: u64) ->
             r.wselect("select1", "Bmi2BitOps::select1_ultra_fast(1-based)", |x, k| b2c::Bmi2BitOps::select1_ultra_fast(x, k + 1))?;
             r.wselect("select1", "Bmi2BitOps::select1_fallback(1-based)", |x, k| b2c::Bmi2BitOps::select1_fallback(x, k + 1))?;
             r.select("select1", "Bmi2BlockOps::bulk_select1[1](1-based)", |k| b2c::Bmi2BlockOps::bulk_select1(w, &[k + 1]).ok().map(one))?;
+            // one call for many ranks (1-based), asked k+1 for the k-th one
+            let c = match guard(|| (0..=n).find(|&k| b2c::Bmi2BlockOps::bulk_select1(w, &[k + 1]).is_err()).unwrap_or(n + 1)) {
+                Ok(c) => c,
+                Err(m) => return Err(r.panic("Bmi2BlockOps::bulk_select1[1](1-based)", m)),
+            };
+            r.select_bulk_pair("Bmi2BlockOps::bulk_select1(1-based)", c, |ks| {
+                let ranks: Vec<usize> = ks.iter().map(|&k| k + 1).collect();
+                b2c::Bmi2BlockOps::bulk_select1(w, &ranks).ok()
+            })?;
             r.rank_bulk("rank1", "Bmi2BlockOps::bulk_rank1", |ps| b2c::Bmi2BlockOps::bulk_rank1(w, ps))
         }
         _ => Ok(()),
